@@ -1150,6 +1150,8 @@ class SmiV2Parser(AbstractParser):
             raise error.PySmiParserError("Bad grammar near token type %s, value %s" % (p.type, p.value),
                                          lineno=p.lineno)
 
+        raise error.PySmiParserError("Unexpected end of MIB text", lineno=self.lexer.lexer.lineno)
+
 
 #
 # Parser grammar relaxation follows.
